@@ -495,7 +495,7 @@ func writeEvidence(prop, tier string, seed int, t0 time.Time, rs []*HarnessResul
 	havoced := map[string]int{}
 	uninit := map[string]int{}
 	var bounds []string
-	var assumptions []string
+	assumptions := []string{"claims hold only within the bounds listed under coverage.bounds", "environment stubs behave per their contracts (coverage.stubs; DESIGN.md Appendix C)"}
 	q := map[string]int{}
 	solverS := 0.0
 	perH := []interface{}{}
